@@ -334,12 +334,46 @@ def _invalid_block_query(apk_name, sig_name, prior, max_sdk):
         return "exc:" + type(e).__name__
 
 
+_SIGNER_IDS = {}
+
+
+def _signer_ids(apk_name):
+    """{(canonical issuer, serial)} of the certificates carried by the signature blocks of an archive"""
+    if apk_name not in _SIGNER_IDS:
+        from asn1crypto import cms
+        ids = set()
+        sub = "apksig-gen" if apk_name.startswith("gen-") else "apksig"
+        try:
+            with zipfile.ZipFile(os.path.join(core.CORPUS_DIR, sub, apk_name)) as z:
+                for n in z.namelist():
+                    if SIG_RE.search(n):
+                        try:
+                            for c in cms.ContentInfo.load(z.read(n))["content"]["certificates"]:
+                                if c.name == "certificate":
+                                    t = c.chosen["tbs_certificate"]
+                                    ids.add((repr(_canon_issuer(t["issuer"])), t["serial_number"].native))
+                        except Exception:
+                            pass
+        except Exception:
+            pass
+        _SIGNER_IDS[apk_name] = ids
+    return _SIGNER_IDS[apk_name]
+
+
+def related_archives(apk_name, pool):
+    """archives of the pool that carry a certificate with the same issuer and serial number as one of apk_name's"""
+    mine = _signer_ids(apk_name)
+    return [n for n in pool if n != apk_name and mine & _signer_ids(n)]
+
+
 def invalid_block_case(seed, apk_name, sig_name, gen_names):
     fr = core.rng(seed, "faults")
     problems = {}
     fired = {}
     n = 0
-    hist = [[], list(gen_names)] + [[fr.choice(gen_names)] for _ in range(2) if gen_names]
+    rel = related_archives(apk_name, gen_names)
+    hist = [[], list(gen_names)] + [[x] for x in rel] + ([rel] if len(rel) > 1 else []) + \
+        [[fr.choice(gen_names)] for _ in range(2) if gen_names]
     for prior in hist:
         for max_sdk in (None, 23, 30):
             res = _invalid_block_query(apk_name, sig_name, prior, max_sdk)
@@ -348,10 +382,14 @@ def invalid_block_case(seed, apk_name, sig_name, gen_names):
             if prior:
                 fired["history:other-archive-processed-first"] = fired.get("history:other-archive-processed-first", 0) + 1
             if res == "certificate":
-                problems.setdefault("C32:accepted:invalid-block",
-                                    {"msg": f"{apk_name} {sig_name}: the block's signature does not verify (independent check) but a "
-                                            f"certificate is reported (max_sdk_version={max_sdk}, archives processed before: {prior})",
-                                     "fault": ["invalid-block", 0, 0, max_sdk, False, None, prior]})
+                cur = problems.get("C32:accepted:invalid-block")
+                # keep the example whose history is most explicit: an acceptance seen with an empty history may rest on what
+                # earlier cases left behind in this worker process and would then not replay from a clean state
+                if cur is None or len(prior) > len(cur["fault"][6]):
+                    problems["C32:accepted:invalid-block"] = {
+                        "msg": f"{apk_name} {sig_name}: the block's signature does not verify (independent check) but a "
+                               f"certificate is reported (max_sdk_version={max_sdk}, archives processed before: {prior})",
+                        "fault": ["invalid-block", 0, 0, max_sdk, False, None, list(prior)]}
     case = {"seed": seed, "apk": apk_name, "sig": sig_name, "by_sig": {s: v["fault"] for s, v in problems.items()}} if problems else None
     return {"problems": [(s, v["msg"]) for s, v in sorted(problems.items())], "digest": core.digest_of([apk_name, sig_name, "invalid", n, sorted(problems)]),
             "probes": {"invalid-blocks-checked": 1}, "faults": fired, "units": n, "nontrivial": False, "cases": n, "sample": None,
@@ -405,6 +443,8 @@ def worker(seed):
     n = 0
     nontriv = 0
     prior_pool = [c[0] for c in cands if c[0].startswith("gen-") and c[0] != apk_name]
+    rel = related_archives(apk_name, prior_pool)
+    prior_pool = rel * 4 + prior_pool          # archives sharing a signer id with this one are the interesting earlier work
     if "signed-attrs" in p["regions"]:
         new = reorder_attrs_bytes(p["blob"], p["regions"]["signed-attrs"])
         if new is not None:
